@@ -12,4 +12,7 @@ PROPS = {
     "C10": dict(suites=["cksum"]),
     "C11": dict(suites=["endian"]),
     "C12": dict(suites=["valid"]),
+    "C13": dict(suites=["args"]),
+    "C14": dict(suites=["hist"]),
+    "C20": dict(suites=["force"]),
 }
